@@ -70,7 +70,9 @@ CLAIMED.update({
              "expressions), Chain and Dispatch; TLC checks the table (finite chains, exactly one sink, Classic only for classic "
              "expressions) and prints the chain per category. The harness builds an instance of every implementation class "
              "obtainable for all 159 categories (347 instances, 187 category/class pairs) and records category, the hooks "
-             "accept() reaches, the number of hooks entered, the sink of a sinks-only visitor, and view<K> for all K; every "
+             "accept() reaches (each of which must be handed the node itself), the number of hooks entered, the sink of a sinks-only "
+             "visitor, view<K> for all K, the same with accept() entered again from inside its hook 301 levels deep, and nodes built "
+             "where a destroyed node of another kind was; every "
              "instance is compared with the printed chain and validated again by the trace spec.",
         ref="DESIGN.md §3 C06", tech="TLA+ IprVisitor: per-category dispatch chains from TLC compared on one instance of every implementation class + trace validation",
         note="Trusted: TLC, the Super table transcribed from the class heads at the pinned commit (design/super-table.txt), "
@@ -79,8 +81,9 @@ CLAIMED.update({
         text="IprStrings.tla (R-level): per-Lexicon map word -> String, immutable content, empty and reserved words shared "
              "process-wide. TLC enumerates every sequence of 4 (quick) / 5 (thorough) intern requests over two Lexicons and 8 "
              "words, replayed with identity and content of every String compared after every step. Arena.tla (I-level) is "
-             "checked exhaustively with scaled constants and, with the real constants, generates length sequences around "
-             "'exactly fills the pool', replayed and validated by the trace spec. A recorded sweep (all reserved words and near "
+             "checked exhaustively with scaled constants and, with the real constants, generates every sequence of 3 (quick) / 4 "
+             "(thorough) lengths around 'exactly fills the pool' and 'too long for any pool', replayed and validated by the trace spec; "
+             "every second request for a word is preceded by a request for a name or atom of that spelling. A recorded sweep (all reserved words and near "
              "misses, all byte values, NULs, unterminated sources, roll-over/oversize lengths, random history with "
              "re-observation) is validated line by line, once plain and once under ASan/UBSan.",
         ref="DESIGN.md §3 C03", tech="TLA+ IprStrings/Arena: exhaustive TLC behaviours replayed, I-level boundary generation, trace validation (also under ASan)",
@@ -102,7 +105,7 @@ CLAIMED.update({
              "every sequence of length 6 over 5 keys (quick) / 7 over 7 (thorough) with the predicted shape after each "
              "insertion; both tree flavours are driven with each sequence and the real shape (read through a class derived "
              "from the protected core) must equal the prediction, otherwise it is judged by the R-level trace spec; long "
-             "sorted/reversed/zig-zag/random/duplicate sequences with integer, address and lexicographic comparators are "
+             "sorted/reversed/zig-zag/random/duplicate sequences with integer, address, lexicographic and 64-bit-difference comparators are "
              "validated by RBTreeTrace.",
         ref="DESIGN.md §3 C08", tech="TLA+ RBTree: exhaustive insertion sequences replayed with shape comparison + R-level trace validation",
         note="Trusted: TLC, the R-level predicates in spec/RBTree.tla, the shape reader in harness/rbtree.cxx. Bounded: "
@@ -164,7 +167,9 @@ CLAIMED.update({
              "(SameText), printing leaves the graph untouched, and the text with print_locations is the text without, woven "
              "with the specification's location prefix F<file>:<line>[:<column>]<space> at every located statement (Weave). TLC "
              "enumerates every statement tree of nesting depth 2 over the statement constructs; each is built in two Lexicons "
-             "(one with unrelated allocations between all steps), printed three times and with locations on/off; IprPrinterTrace "
+             "(one with unrelated allocations and near-miss type requests between all steps, one program in four at the edge of a "
+             "string storage block), once more in a Lexicon where it is printed before its last statement is added, printed three "
+             "times and with locations on/off (handlers and their blocks included; ten-digit numbers); IprPrinterTrace "
              "judges every event.",
         ref="DESIGN.md §3 C17", tech="TLA+ IprPrinter: TLC-enumerated programs built twice and printed; relational trace validation",
         note="Trusted: TLC, spec/IprPrinter*.tla, harness/printer.cxx (its search for where the prefixes sit is only a witness: "
@@ -191,8 +196,9 @@ CLAIMED.update({
              "AddressSanitizer's observation (strings in quick; factory histories under ASan in thorough)."),
     "C19": dict(
         text="IprLedger.tla: the allocation ledger (Begin, Alloc of a fresh identity, Free of an outstanding one, End only when "
-             "the ledger is back to its state at Begin). Nine construction histories (up to the whole zoo built and printed, "
-             "string pools rolled over, two interleaved Lexicons) each run three times in one process with the global allocation "
+             "the ledger is back to its state at Begin). Twelve construction histories (up to the whole zoo built and printed, "
+             "string pools rolled over, two interleaved Lexicons, tables of 300 entries in extreme key orders, one name declared as "
+             "every kind of declaration in every order) each run three times in one process with the global allocation "
              "functions replaced; runs 2 and 3 are validated by IprLedgerTrace allocation by allocation (<= 400 allocations) or "
              "by counters. IprLedgerMC is checked tight and with a forgetful owner (must violate) as a vacuity guard. ASan+LSan "
              "runs of this recorder and of other recorders contribute their verdict as terminal events, and so do runs of six recorders "
